@@ -12,6 +12,7 @@ import (
 	"regexp"
 	"sort"
 	"strings"
+	"sync"
 	"testing"
 
 	"pgregory.net/rapid"
@@ -88,6 +89,115 @@ func checkValue(ti *typeInfo, v uint64) string {
 	return ""
 }
 
+// probeValues returns the values of ti the concurrent phase prints: all of an
+// 8- or 16-bit type, and for wider types the constants, their neighbours and
+// the powers of two.
+func probeValues(ti *typeInfo) []uint64 {
+	var out []uint64
+	switch {
+	case ti.Bits <= 16:
+		for v := uint64(0); v < uint64(1)<<uint(ti.Bits); v++ {
+			out = append(out, v)
+		}
+	default:
+		for _, c := range ti.Consts {
+			out = append(out, c.Value-1, c.Value, c.Value+1)
+		}
+		for b := 0; b < ti.Bits; b++ {
+			out = append(out, uint64(1)<<uint(b), uint64(1)<<uint(b)-1)
+		}
+	}
+	return out
+}
+
+// TestMain: with VERIF_C20_WORKER set this binary is the child of the
+// "concurrent" sub-check: several goroutines print the same values of every
+// type at the same time, as the first String calls of the process. A wrong
+// string ends the process with exit code 3; state kept by a String method shows
+// as a runtime fatal error (concurrent map access) or as a wrong string.
+func TestMain(m *testing.M) {
+	if os.Getenv("VERIF_C20_WORKER") == "" {
+		os.Exit(m.Run())
+	}
+	const goroutines = 8
+	var wg sync.WaitGroup
+	start := make(chan struct{})
+	bad := make(chan string, goroutines)
+	for g := 0; g < goroutines; g++ {
+		wg.Add(1)
+		go func(g int) {
+			defer wg.Done()
+			<-start
+			for i := range genTypes {
+				ti := &genTypes[(i+g*7)%len(genTypes)]
+				if len(ti.Consts) == 0 {
+					continue
+				}
+				for _, v := range probeValues(ti) {
+					if msg := checkValue(ti, v); msg != "" {
+						select {
+						case bad <- msg:
+						default:
+						}
+						return
+					}
+				}
+			}
+		}(g)
+	}
+	close(start)
+	wg.Wait()
+	select {
+	case msg := <-bad:
+		fmt.Println("MISMATCH " + msg)
+		os.Exit(3)
+	default:
+	}
+	fmt.Println("CONCURRENT-OK")
+	os.Exit(0)
+}
+
+// concurrent runs the child described at TestMain.
+func concurrent(rec *hx.Recorder) {
+	n := int64(0)
+	for i := range genTypes {
+		if len(genTypes[i].Consts) > 0 {
+			n += int64(len(probeValues(&genTypes[i])))
+		}
+	}
+	runs := hx.Pick(3, 40)
+	for r := 0; r < runs; r++ {
+		cmd := exec.Command(os.Args[0])
+		cmd.Env = append(os.Environ(), "VERIF_C20_WORKER=1", "VERIF_OUT=")
+		var out, errb bytes.Buffer
+		cmd.Stdout, cmd.Stderr = &out, &errb
+		err := cmd.Run()
+		rec.Eval("concurrent", n*8)
+		switch {
+		case err == nil && strings.Contains(out.String(), "CONCURRENT-OK"):
+		case strings.Contains(out.String(), "MISMATCH "):
+			rec.Fail("concurrent", "", "8 goroutines printing the same values at the same time: "+firstLine(out.String()[strings.Index(out.String(), "MISMATCH ")+9:]), strCase{"(concurrent)", 0})
+			return
+		case strings.Contains(errb.String(), "fatal error:") || strings.Contains(errb.String(), "panic:"):
+			rec.Fail("concurrent", "", "8 goroutines calling String at the same time crash the process (a String method keeps state): "+firstLine(errb.String()[strings.Index(errb.String(), "fatal error:")+0:]), strCase{"(concurrent)", 0})
+			return
+		default:
+			rec.Note(fmt.Sprintf("concurrent: child ended with %v and no verdict: %s", err, firstLine(errb.String())))
+			return
+		}
+	}
+}
+
+func firstLine(s string) string {
+	if i := strings.Index(s, "fatal error:"); i > 0 {
+		s = s[i:]
+	}
+	if i := strings.IndexByte(s, '\n'); i >= 0 {
+		s = s[:i]
+	}
+	return s
+}
+
 func TestC20(t *testing.T) {
 	hx.Main(t, "C20", func(rec *hx.Recorder) {
 		if rp, ok := hx.LoadReplay(); ok {
@@ -100,6 +210,8 @@ func TestC20(t *testing.T) {
 				}
 			} else if c.Type == "(regeneration)" {
 				regenerate(rec)
+			} else if c.Type == "(concurrent)" {
+				concurrent(rec)
 			}
 			return
 		}
@@ -177,6 +289,7 @@ func TestC20(t *testing.T) {
 		})
 
 		regenerate(rec)
+		concurrent(rec)
 	})
 }
 
